@@ -562,6 +562,22 @@ fn drive_service(svc: &Svc, t: &T, env: &Rc<Env>, req: u64, check_c12: bool) -> 
         let this_round: Vec<&Ev> = log.iter().filter(|e| matches!(e, Ev::Ready { round: r, .. } if *r == round)).collect();
         match res {
             Poll::Pending => {
+                if check_c12 {
+                    // every inner service that is not known to be ready must have been asked in
+                    // this round (an inner that was never asked holds no waker at all)
+                    for l in &leaves {
+                        let last = log.iter().rev().find_map(|e| match e {
+                            Ev::Ready { leaf, res, round: r } if leaf == l => Some((*res, *r)),
+                            _ => None,
+                        });
+                        match last {
+                            Some((R::Ok(_), _)) => {}
+                            Some((_, r)) if r == round => {}
+                            Some((_, r)) => return Err(bad("poll_ready:pending-inner-not-polled", format!("poll_ready returned Pending in round {round} without polling leaf {l}, pending since round {r}"))),
+                            None => return Err(bad("poll_ready:pending-inner-never-polled", format!("poll_ready returned Pending in round {round} although inner service {l}, which is not known to be ready, was not polled (it holds no waker)"))),
+                        }
+                    }
+                }
                 drop(log);
                 if check_c12 {
                     check_pending(env, round, &w, "poll_ready")?;
